@@ -144,6 +144,8 @@ def run_variant(v, tier='quick'):
             if new:
                 outs.append(('FALSE-ALARM', '%s fired %s' % (
                     p, [(i.rule, i.construct, i.detail[:120]) for i in new][:3])))
+            elif rep.exit_code == 2 and p in getattr(v, 'undecided_ok', ()):
+                outs.append(('ok', '%s undecided (accepted for this twin: %s)' % (p, '; '.join(rep.lines)[:100])))
             elif rep.exit_code == 2:
                 outs.append(('UNDECIDED', '%s: %s' % (p, '; '.join(rep.lines)[:300])))
             else:
